@@ -55,9 +55,14 @@ Definition starts_let_bracket (ts : list tok) : bool :=
   | TId s :: TP p :: _ => zlist_eqb s [108; 101; 116] && zlist_eqb p [91]
   | _ => false
   end.
-Definition parse_stmt (ts : list tok) : option expr := if starts_let_bracket ts then None else parse false ts.
+(* the same two-token restriction holds at the start of the head of a for loop (14.7.4:
+   for ( [lookahead <> let [] Expression[~In] ; ...  and  for ( [lookahead <> let [] LeftHandSideExpression in ...) *)
+Definition parse_start (ni : bool) (ts : list tok) : option expr := if starts_let_bracket ts then None else parse ni ts.
+Definition parse_stmt (ts : list tok) : option expr := parse_start false ts.
 Definition parse_stmt_text (s : list Z) : option expr :=
   match lex s with Some ts => parse_stmt ts | None => None end.
+Definition parse_for_head_text (s : list Z) : option expr :=
+  match lex s with Some ts => parse_start true ts | None => None end.
 
 (* the first two tokens of an expression printed at the start of a statement: either the expression is a
    single identifier (one token), or the token list does not start with "let [" whatever follows *)
@@ -135,13 +140,19 @@ Proof.
 Qed.
 
 (* statement-level round trip: the text printed for an expression statement is read back, as a statement, as the tree *)
-Theorem print_stmt_roundtrip_all e : wf e -> lexok e -> parse_stmt_text (print_expr mw false true e) = Some (norm e).
+Lemma print_start_roundtrip_all fi e : wf e -> lexok e ->
+  match lex (print_expr mw fi true e) with Some ts => parse_start fi ts | None => None end = Some (norm e).
 Proof.
-  intros Hwf Hlx. unfold parse_stmt_text. rewrite (print_lex_all mw false true e Hwf Hlx). unfold parse_stmt.
-  assert (Hs : starts_let_bracket (toks (print_items false true LLowest e)) = false).
-  { destruct (stmt_start_inv e false LLowest Hwf) as [(s & _ & E)|H]; [rewrite E; reflexivity|].
+  intros Hwf Hlx. rewrite (print_lex_all mw fi true e Hwf Hlx). unfold parse_start.
+  assert (Hs : starts_let_bracket (toks (print_items fi true LLowest e)) = false).
+  { destruct (stmt_start_inv e fi LLowest Hwf) as [(s & _ & E)|H]; [rewrite E; reflexivity|].
     specialize (H []). rewrite app_nil_r in H. exact H. }
-  rewrite Hs. destruct (parse_print_items_all mw false true e Hwf) as [n Hn].
+  rewrite Hs. destruct (parse_print_items_all mw fi true e Hwf) as [n Hn].
   apply (parse_fuel_enough n). apply Hn. apply Nat.le_refl.
 Qed.
+Theorem print_stmt_roundtrip_all e : wf e -> lexok e -> parse_stmt_text (print_expr mw false true e) = Some (norm e).
+Proof. intros Hwf Hlx. exact (print_start_roundtrip_all false e Hwf Hlx). Qed.
+(* what the printer would have to do in the head of a for loop: print with the guard on (ss = true) *)
+Theorem print_for_head_roundtrip_guarded e : wf e -> lexok e -> parse_for_head_text (print_expr mw true true e) = Some (norm e).
+Proof. intros Hwf Hlx. exact (print_start_roundtrip_all true e Hwf Hlx). Qed.
 End WithMode.
